@@ -597,28 +597,6 @@ def contract_lines(ctx, tasks, results):
             lines.append(line)
             meta.append((t, c))
     answers = ctx.lean(lines) if lines else []
-    # self-test of the translation: the IR interpreter, run on the recorded arguments under a few pseudo-random
-    # oracles, must not read an unassigned variable and (theorem kinds_sound) must not leave an array at a kinded site
-    complete = set()
-    for (t, c), ln in zip(meta, lines):
-        k = desc[c['kernel']]
-        if all('int' in c['args'].get(p, {}) for p in k.get('int_params', [])):
-            complete.add(ln)
-    per = {}
-    sample = []
-    for ln in lines:
-        kn = ln.split(' ')[1]
-        if ln in complete and kn != 'push_pagerank' and per.get(kn, 0) < 3:
-            per[kn] = per.get(kn, 0) + 1
-            sample.append(ln)
-    exec_lines = ['c17.exec ' + ln[len('c17.sat '):] + ' 25 %d' % (k % 5) for k, ln in enumerate(sample)]
-    for ln, ans in zip(exec_lines, ctx.lean(exec_lines) if exec_lines else []):
-        ctx.count('ir_exec:' + ans.split(' ')[0])
-        if ans.startswith('uninit') or ans == 'bad-args':
-            kern = ln.split(' ')[1]
-            ctx.broken('ir_exec:' + kern, {'line': ln[:400], 'answer': ans,
-                                           'what': 'the translated kernel reads a variable it never assigned'},
-                       sig={'obligation': 'ir_exec', 'kernel': kern, 'answer': ans.split(' ')[0]})
     for (t, c), line, ans in zip(meta, lines, answers):
         ctx.case(('sat', line), True, sample={'request': line[:300], 'model': ans, 'impl': 'arguments of ' + c['kernel']})
         ctx.count('contract:' + c['kernel'])
